@@ -74,6 +74,48 @@ func extractSyncPeer() {
 	newp := funcDecl(f, "blockManager", "handleNewPeerMsg")
 	l.def("newPeerSelects", "Bool", lbool(newp != nil && hasCall(newp, "b.startSync")),
 		"handleNewPeerMsg calls b.startSync")
+	// early returns of startSync: conditions of its top-level `if … { …; return }` statements, in source order
+	var guards []string
+	if ss := funcDecl(f, "blockManager", "startSync"); ss != nil {
+		for _, st := range ss.Body.List {
+			if is, ok := st.(*ast.IfStmt); ok && is.Else == nil && endsWithReturn(is.Body) {
+				guards = append(guards, squeeze(src(is.Cond)))
+			}
+		}
+	} else {
+		fail("blockmanager.go: startSync not found")
+	}
+	l.def("startSyncEarlyReturns", "List String", lstrs(guards),
+		"conditions of the top-level early returns of startSync, in source order")
+	// the condition under which handleNewPeerMsg asks the new peer for headers on the spot
+	ask := ""
+	if newp != nil {
+		for _, is := range ifStmts(newp.Body) {
+			if hasCall(is.Body, "sp.PushGetHeadersMsg") {
+				ask = squeeze(src(is.Cond))
+				break
+			}
+		}
+	}
+	if ask == "" {
+		fail("blockmanager.go: handleNewPeerMsg no longer sends getheaders to the new peer under an if")
+	}
+	l.def("newPeerAskCond", "String", fmt.Sprintf("%q", ask),
+		"handleNewPeerMsg sends getheaders to the new peer iff this holds")
+	// the condition under which handleInvMsg ignores an announcement
+	ign := ""
+	if inv := funcDecl(f, "blockManager", "handleInvMsg"); inv != nil {
+		for _, st := range inv.Body.List {
+			if is, ok := st.(*ast.IfStmt); ok && len(is.Body.List) == 1 && endsWithReturn(is.Body) {
+				ign = squeeze(src(is.Cond))
+				break
+			}
+		}
+	}
+	if ign == "" {
+		fail("blockmanager.go: handleInvMsg has no top-level `if … { return }`")
+	}
+	l.def("invIgnoreCond", "String", fmt.Sprintf("%q", ign), "handleInvMsg returns without reacting iff this holds")
 	l.write()
 	facts["syncpeer.sites"] = rows
 }
